@@ -43,13 +43,14 @@ type Obligation struct {
 	Pos     string
 	tr      *FnTrans
 
-	Status  string // discharged | failed | cover-ok | vacuous | error
-	Answer  string // solver answer
-	Solver  string
-	TimeS   float64
-	Model   string
-	SmtSize int
-	Region  string // known-finding carve-out applied
+	Status     string // discharged | failed | cover-ok | vacuous | error
+	Answer     string // solver answer
+	Solver     string
+	TimeS      float64
+	Model      string
+	SmtSize    int
+	SecondPass bool   // undecided in the parallel pass, re-run with four times the budget
+	Region     string // known-finding carve-out applied
 
 	Syntactic  bool
 	Extra      []Assume
@@ -86,101 +87,101 @@ type invokedFn struct {
 }
 
 type BState struct {
-	reach string
-	heap  *Heap
+	reach   string
+	heap    *Heap
 	lastNow string // instant of the most recent time.Now() reading on this path (empty: none known)
-	ac    string // allocation counter: every object existing at this point has a smaller id
+	ac      string // allocation counter: every object existing at this point has a smaller id
 }
 
 type FnTrans struct {
-	eng   *Engine
-	fn    *ssa.Function
-	c     *Contract
-	smt   *Smt
-	name  string // display name pkg.func
+	eng          *Engine
+	fn           *ssa.Function
+	c            *Contract
+	smt          *Smt
+	name         string // display name pkg.func
 	inapplicable string // set by evalGoal when a clause of the contract cannot be evaluated; consumed by the next oblige
-	props []string
+	props        []string
 
 	assumes []Assume
 	obls    []*Obligation
 	oblCnt  map[string]int
 
-	vals     map[ssa.Value]Val
-	in       map[*ssa.BasicBlock]*BState // state at block entry (after phis)
-	out      map[*ssa.BasicBlock]*BState
-	edge     map[[2]int]string // edge condition (includes source reach)
-	backEdge map[[2]int]bool
-	loopOf   map[*ssa.BasicBlock]int // header -> ordinal (source order)
-	loopBody map[*ssa.BasicBlock][]*ssa.BasicBlock
-	entryHeap *Heap
-	sites    map[ssa.CallInstruction]*Site
-	siteByAlias map[string]*Site
-	siteDeclOf  map[ssa.CallInstruction][]string
-	allocID  int
-	defers   []*ssa.Defer
-	retCnt   int
-	abstracted map[string]int
-	usedSpecs  map[string]bool
-	notes      []string
-	curBlock *ssa.BasicBlock
-	curIdx   int
-	lets     map[string]*Expr
-	siteInstr map[string]ssa.CallInstruction
-	ghostSites map[string]*Site
-	loopInfo map[int]string
-	closures map[string]*ssa.MakeClosure
-	ifaceTests map[string]types.Type
-	returns  []retInfo
-	siteErrors []string
-	copyFacts []copyFact
-	curState *BState
-	curEnv   *Env
-	idxCands []Val
-	clauseCandSet map[string]bool // index terms contract clauses read slices at
+	vals               map[ssa.Value]Val
+	in                 map[*ssa.BasicBlock]*BState // state at block entry (after phis)
+	out                map[*ssa.BasicBlock]*BState
+	edge               map[[2]int]string // edge condition (includes source reach)
+	backEdge           map[[2]int]bool
+	loopOf             map[*ssa.BasicBlock]int // header -> ordinal (source order)
+	loopBody           map[*ssa.BasicBlock][]*ssa.BasicBlock
+	entryHeap          *Heap
+	sites              map[ssa.CallInstruction]*Site
+	siteByAlias        map[string]*Site
+	siteDeclOf         map[ssa.CallInstruction][]string
+	allocID            int
+	defers             []*ssa.Defer
+	retCnt             int
+	abstracted         map[string]int
+	usedSpecs          map[string]bool
+	notes              []string
+	curBlock           *ssa.BasicBlock
+	curIdx             int
+	lets               map[string]*Expr
+	siteInstr          map[string]ssa.CallInstruction
+	ghostSites         map[string]*Site
+	loopInfo           map[int]string
+	closures           map[string]*ssa.MakeClosure
+	ifaceTests         map[string]types.Type
+	returns            []retInfo
+	siteErrors         []string
+	copyFacts          []copyFact
+	curState           *BState
+	curEnv             *Env
+	idxCands           []Val
+	clauseCandSet      map[string]bool // index terms contract clauses read slices at
 	pureKnown, pureVal bool
-	storeSites map[*ssa.Store][]string
-	eventSites map[eventKey][]string // channel operations named by the contract
-	eventAliases map[string]bool
-	missingSites []SiteDecl
-	floatUsed bool
-	usedGlobalInvs map[string]Clause
-	modAllowed []string
-	heapAnc  map[string][]*frameFact
-	baseAC   map[string]string
-	heapBases map[string][]string
-	baseDone map[string]bool
-	frameDone map[string]bool
-	loopObjs []*ssa.Alloc
-	loopObjPaths map[*ssa.Alloc][][]int
-	pendingDecoded []pendingDec
-	symAllocs []string
-	reinst   []func([]Val)
-	skolems  []Val
-	sink     *[]Assume
-	lastReinst int
-	frames   []frameFact
-	qhyps    []*qhyp
-	deferredEx []func() string // goal existentials whose instances are chosen at oblige time
-	obWit    []Val           // witness terms named by hypotheses while instantiating for the current obligation
-	deferEx  bool
-	privMaps []*ssa.MakeMap
-	rangeVisited map[*ssa.Range]string // ghost: keys a range-over-map loop has yielded so far
-	rangeDom0    map[*ssa.Range]string // ghost: key set of the map when the iteration started
-	onlyChecks []onlyCheck
-	stableFlds []stableFld
-	concats  [][3]string     // string concatenations translated so far (left, right, result)
-	wantTy   types.Type      // Go type of the quantified variable candidates are being chosen for
-	witTerms []Val           // every witness term hypotheses have named (instances for goal existentials)
-	assumeSeen map[string]bool
-	allocs   []*ssa.Alloc
-	escCache map[*ssa.Alloc]bool
-	curLoopBlocks map[*ssa.BasicBlock]bool
-	stableVals []Val
-	stableTypes []types.Type
-	autoInvs map[*ssa.BasicBlock]func(string, int) string
-	autoPhis map[*ssa.BasicBlock][]*ssa.Phi
-	localTypes map[string]types.Type
-	ghostLocals map[string]Val
+	storeSites         map[*ssa.Store][]string
+	eventSites         map[eventKey][]string // channel operations named by the contract
+	eventAliases       map[string]bool
+	missingSites       []SiteDecl
+	floatUsed          bool
+	usedGlobalInvs     map[string]Clause
+	modAllowed         []string
+	heapAnc            map[string][]*frameFact
+	baseAC             map[string]string
+	heapBases          map[string][]string
+	baseDone           map[string]bool
+	frameDone          map[string]bool
+	loopObjs           []*ssa.Alloc
+	loopObjPaths       map[*ssa.Alloc][][]int
+	pendingDecoded     []pendingDec
+	symAllocs          []string
+	reinst             []func([]Val)
+	skolems            []Val
+	sink               *[]Assume
+	lastReinst         int
+	frames             []frameFact
+	qhyps              []*qhyp
+	deferredEx         []func() string // goal existentials whose instances are chosen at oblige time
+	obWit              []Val           // witness terms named by hypotheses while instantiating for the current obligation
+	deferEx            bool
+	privMaps           []*ssa.MakeMap
+	rangeVisited       map[*ssa.Range]string // ghost: keys a range-over-map loop has yielded so far
+	rangeDom0          map[*ssa.Range]string // ghost: key set of the map when the iteration started
+	onlyChecks         []onlyCheck
+	stableFlds         []stableFld
+	concats            [][3]string // string concatenations translated so far (left, right, result)
+	wantTy             types.Type  // Go type of the quantified variable candidates are being chosen for
+	witTerms           []Val       // every witness term hypotheses have named (instances for goal existentials)
+	assumeSeen         map[string]bool
+	allocs             []*ssa.Alloc
+	escCache           map[*ssa.Alloc]bool
+	curLoopBlocks      map[*ssa.BasicBlock]bool
+	stableVals         []Val
+	stableTypes        []types.Type
+	autoInvs           map[*ssa.BasicBlock]func(string, int) string
+	autoPhis           map[*ssa.BasicBlock][]*ssa.Phi
+	localTypes         map[string]types.Type
+	ghostLocals        map[string]Val
 }
 
 func (tr *FnTrans) note(format string, a ...interface{}) {
